@@ -7,6 +7,9 @@
     IM.iset       <- IMapIterator._set        (reorder buffer: deque/dict operations are modelled calls,
     IM.iset_length<- IMapIterator._set_length  the `while self._index in self._unsorted` loop is translated with
     IM.uset       <- IMapUnorderedIterator._set  fuel = len(_unsorted))
+    IM.init, IM.fresh_containers_per_instance, IM.class_level_mutable_attrs, IM.unordered_inherits_init
+                  <- IMapIterator.__init__ and the class bodies of ApplyResult/MapResult/IMapIterator/
+                     IMapUnorderedIterator: per-instance containers and initial scalars (structural facts)
     pins          <- Pool._get_tasks, mapstar, starmapstar, IMapIterator.next, ApplyResult.get, and the
                      task/flattening expressions of Pool.imap / imap_unordered: outside the translatable
                      subset (generators, try/except), so their *text* is pinned; any edit makes the kernel fail to generate (fail closed) and the
@@ -373,6 +376,73 @@ class IMRewriter(ast.NodeTransformer):
         return ast.copy_location(ast.parse('cache_del(self._job)').body[0], st)
 
 
+def find_class(tree, name):
+    for node in ast.walk(tree):
+        if isinstance(node, ast.ClassDef) and node.name == name:
+            return node
+    raise TranslateError('%s: class %s not found' % (FILE, name))
+
+
+MUTABLE_VALUES = (ast.Dict, ast.List, ast.Set, ast.ListComp, ast.DictComp, ast.SetComp, ast.Call)
+
+
+def gen_im_init(tree):
+    """structural facts about how a result handle gets its state: no mutable class attributes on the
+    result classes (a class-level `{}` / `[]` / `deque()` would be ONE object shared by every handle of
+    the process), IMapIterator.__init__ creates fresh containers and the initial scalars per instance.
+    Facts that do not hold are emitted as `false` / a poison value, so the theorem C02_code_imap_init
+    (closed by reflexivity) names what broke; nothing is skipped."""
+    mutable = []
+    for cname in ('ApplyResult', 'MapResult', 'IMapIterator', 'IMapUnorderedIterator'):
+        for st in find_class(tree, cname).body:
+            val = None
+            if isinstance(st, ast.Assign):
+                val = st.value
+            elif isinstance(st, ast.AnnAssign):
+                val = st.value
+            if val is not None and isinstance(val, MUTABLE_VALUES):
+                mutable.append('%s.%s' % (cname, ast.unparse(st).split('=')[0].strip()))
+    init = find_func(tree, 'IMapIterator.__init__')
+    assigned = {}
+    registers = False
+    for st in strip_doc(init.body):
+        if isinstance(st, ast.Assign) and len(st.targets) == 1:
+            t = ast.unparse(st.targets[0])
+            if t.startswith('self.'):
+                assigned[t[5:]] = st.value
+            if ast.unparse(st) == 'cache[self._job] = self':
+                registers = True
+    fresh_want = {'_items': 'deque()', '_unsorted': '{}', '_worker_pids': '[]'}
+    fresh = all(k in assigned and ast.unparse(assigned[k]) == v for k, v in fresh_want.items())
+
+    def scalar(name):
+        v = assigned.get(name)
+        if isinstance(v, ast.Constant):
+            if v.value is None:
+                return 'PNone'
+            if isinstance(v.value, bool):
+                return 'PBool %s' % ('true' if v.value else 'false')
+            if isinstance(v.value, int):
+                return 'PInt %s' % zlit(v.value)
+        return 'PErr TypeError   (* IMapIterator.__init__ does not assign a constant to self.%s *)' % name
+
+    unordered = find_class(tree, 'IMapUnorderedIterator')
+    inherits = not any(isinstance(st, ast.FunctionDef) and st.name == '__init__' for st in unordered.body) \
+        and [ast.unparse(b) for b in unordered.bases] == ['IMapIterator']
+    return '\n'.join([
+        '(* how a handle gets its state (see gen_im_init in translate/kernels/reassembly.py) *)',
+        '(* mutable class attributes found on the result classes: %s *)' % (', '.join(mutable) or 'none'),
+        'Definition class_level_mutable_attrs : nat := %d%%nat.' % len(mutable),
+        'Definition fresh_containers_per_instance : bool := %s.' % ('true' if fresh else 'false'),
+        'Definition unordered_inherits_init : bool := %s.' % ('true' if inherits else 'false'),
+        'Definition init_index : pv := %s.' % scalar('_index'),
+        'Definition init_length : pv := %s.' % scalar('_length'),
+        'Definition init_ready : pv := %s.' % scalar('_ready'),
+        'Definition init_incache : bool := %s.' % ('true' if registers else 'false'),
+        'Definition init (job : pv) : st := mk_st init_index init_length init_ready job [] [] init_incache.',
+        ''])
+
+
 def gen_im(tree_src, consts, repo):
     kernel = Kernel(dict(name='K_reassembly.IM', file=FILE, state=IM_STATE, calls=IM_CALLS,
                          atomic_with=['self._cond']), repo)
@@ -387,7 +457,8 @@ def gen_im(tree_src, consts, repo):
                   exprs={'self._index in self._unsorted': 'unsorted_has s'},
                   while_fuel='length (g_unsorted s)')
         defs.append(FuncTr(kernel, fs, fn, consts).translate())
-    return 'Module IM.\n' + IM_PRELUDE + '\n' + '\n'.join(defs) + 'End IM.\n'
+    return ('Module IM.\n' + IM_PRELUDE + '\n' + gen_im_init(ast.parse(tree_src)) + '\n'
+            + '\n'.join(defs) + 'End IM.\n')
 
 
 # ------------------------------------------------------------------ text pins
